@@ -18,7 +18,7 @@ func init() {
 	register("slot.reuse", func(tier string) []Variant {
 		var vs []Variant
 		for _, akind := range []string{"client", "server"} {
-			for _, aclose := range []string{"user", "peer"} {
+			for _, aclose := range []string{"user", "peer", "hup-queued+user"} {
 				for _, op := range append(append([]string{}, staleOps...), "Release@during", "Next(1)@during", "Flush@during") {
 					for _, early := range []bool{false, true} {
 						if early && op != "none" {
@@ -126,6 +126,20 @@ func slotScenario(akind, aclose, stale string, early bool) *vsched.Scenario {
 		}
 		if aclose == "user" {
 			A.Close()
+		} else if aclose == "hup-queued+user" {
+			// the poller has fetched and queued A's hang-up, but the goroutine that delivers it is
+			// still waiting to run when the user closes A (and wins), the batch ends and B takes the slot
+			vsyscall.HClose(b1)
+			ex := vsched.Cur()
+			vsched.WaitCond("A-hangup-queued", func() bool {
+				for _, t := range ex.Threads() {
+					if strings.HasPrefix(t.Name, "go@poll_default.go") {
+						return true
+					}
+				}
+				return false
+			})
+			A.Close()
 		} else {
 			vsyscall.HClose(b1)
 			vsched.WaitCond("A-hangup-seen", func() bool { return netpoll.VerifState(A).Closing != 0 })
@@ -135,8 +149,34 @@ func slotScenario(akind, aclose, stale string, early bool) *vsched.Scenario {
 		vsched.LogEvent("A:closed")
 		if !early {
 			// let the poller finish a batch so that the freed slot becomes allocatable again
+			if aclose == "hup-queued+user" {
+				// first the teardown has to have given the slot back (it may finish on another thread)
+				idx := netpoll.VerifState(A).OpIndex
+				vsched.WaitCond("slot-freed", func() bool {
+					free, alloc, _ := netpoll.VerifOpCacheDetail(poll)
+					for _, i := range append(free, alloc...) {
+						if i == idx {
+							return true
+						}
+					}
+					return false
+				})
+			}
 			poll.Trigger()
-			vsched.Settle("after-trigger")
+			if aclose == "hup-queued+user" {
+				idx := netpoll.VerifState(A).OpIndex
+				vsched.WaitCond("slot-allocatable", func() bool {
+					_, alloc, _ := netpoll.VerifOpCacheDetail(poll)
+					for _, i := range alloc {
+						if i == idx {
+							return true
+						}
+					}
+					return false
+				})
+			} else {
+				vsched.Settle("after-trigger")
+			}
 			openB()
 		} else {
 			vsched.WaitCond("B-open", func() bool { return B != nil })
